@@ -1369,6 +1369,12 @@ class SpaceManager(SharedSpaceOperations):
 
         for subspace in self._get_subs(space):
             if name in subspace.cells:
+                sub = subspace.cells[name]
+                if sub.is_derived():
+                    # The new cells may precede the current base in the MRO
+                    subspace.clear_subs_rootitems()
+                    sub.on_inherit(
+                        self, self.get_deriv_bases(sub, defined_only=True))
                 continue
             else:
                 subspace.clear_subs_rootitems()
